@@ -15,7 +15,8 @@ def make_obs(ctx):
                       bounds={'table': '%d symbolic transitions' % n,
                               'prestate': 'cold, or the range of ANY earlier instant, or the before-first state',
                               'query': 'any instant from the first transition on'}))
-    obs.append(Ob('zone-cache-step:big300', 'C12_tz.c', 'h_cache_step', {'N': 300, 'BIGTAB': 1}, units=['lib/leaps.c'],
+    if ctx.tier == 'thorough':
+      obs.append(Ob('zone-cache-step:big300', 'C12_tz.c', 'h_cache_step', {'N': 300, 'BIGTAB': 1}, units=['lib/leaps.c'],
                   unwind=14, unwindset=['mk_table.0:302', 'ref_k.0:302'], timeout=600, group='zone-cache-step',
                   bounds={'table': 'concrete 300 transitions', 'prestate': 'as above'}))
     sl, tl = (4, 3) if ctx.tier == 'thorough' else (3, 2)
